@@ -22,6 +22,9 @@ import (
 	"fmt"
 	"os"
 	"path/filepath"
+	"reflect"
+	"runtime/debug"
+	"strings"
 	"time"
 
 	"github.com/nspcc-dev/neo-go/pkg/config"
@@ -239,6 +242,9 @@ type c19dHeight struct {
 	CommitFirst bool  `json:"commit_first"`  // their Commits reach the others before (true) or after the view change
 	Txs         int   `json:"txs,omitempty"` // transactions pooled everywhere before the height
 	TxFee       int64 `json:"tx_fee,omitempty"`
+	// every validator gets the block event of the block it already builds on once more, in the middle of the round (the
+	// service reads the tip itself when its event loop starts AND is subscribed to block events: the same block twice)
+	ReplayEvent bool `json:"replay_event,omitempty"`
 }
 
 type c19dStaleInput struct {
@@ -350,6 +356,20 @@ func (n *c19dNet) staleHeight(op c19dHeight, accepts *[]c19dAccept) bool {
 				return false
 			}
 			resp0 = append(resp0, r)
+		}
+	}
+	if op.ReplayEvent {
+		for _, nd := range n.nodes {
+			tip, err := nd.bc.GetBlock(nd.bc.CurrentBlockHash())
+			if err != nil {
+				panic(err)
+			}
+			before, sent := nd.drv.State(), len(nd.sent)
+			nd.drv.ChainBlock(tip)
+			if after := nd.drv.State(); !reflect.DeepEqual(before, after) || len(nd.sent) != sent {
+				n.violate("a repeated event for the block a validator builds on disturbs its round: validator %d at height %d: %+v before, %+v after, %d payloads sent", nd.i, h, before, after, len(nd.sent)-sent)
+				return false
+			}
 		}
 	}
 	if len(stale) == 0 {
@@ -546,6 +566,24 @@ func c19dWitnessOK(n *c19dNet, b *block.Block) bool {
 	return true
 }
 
+// A validator that panics under an admissible schedule (messages of the protocol from its peers, timeouts, blocks of the
+// chain) violates C19's liveness clause just as one that stops answering: the case is reported as a violation with the
+// schedule as its replay.  Panics of the harness itself (set-up checks, chain helpers) stay infrastructure errors: the
+// distinction is where the panic was raised — beneath a call into the node through the driver, or not.
+const c19dPanicNote = "node panics under an admissible schedule: "
+
+func c19dCatch(f func()) (p string, node bool) {
+	defer func() {
+		if r := recover(); r != nil {
+			p = fmt.Sprint(r)
+			st := string(debug.Stack()) // still contains the frames of the panicking call
+			node = strings.Contains(st, "consensus.(*VerifDriver).")
+		}
+	}()
+	f()
+	return "", false
+}
+
 func c19dRunStale(co *caseOut, raw json.RawMessage) error {
 	var in c19dStaleInput
 	if err := json.Unmarshal(raw, &in); err != nil {
@@ -560,7 +598,7 @@ func c19dRunStale(co *caseOut, raw json.RawMessage) error {
 	}
 	var accepts []c19dAccept
 	var net *c19dNet
-	if p := catch(func() {
+	if p, node := c19dCatch(func() {
 		net = c19dBuild(in.N, in.StateRoot, all, nil)
 		defer net.close()
 		for _, nd := range net.nodes {
@@ -572,6 +610,10 @@ func c19dRunStale(co *caseOut, raw json.RawMessage) error {
 			}
 		}
 	}); p != "" {
+		if node {
+			co.violation("stale", c19dPanicNote+p, in, accepts)
+			return nil
+		}
 		return fmt.Errorf("harness failure in directed consensus case %s: %s", string(raw), p)
 	}
 	for _, v := range net.viol {
@@ -632,7 +674,7 @@ func c19dRunProposal(co *caseOut, raw json.RawMessage) error {
 	// facts about the crafted proposal, by construction
 	prevOK, verOK, srOK, cntOK, tsOK, sizeOK, feeOK := true, true, true, true, true, true, true
 	var status []int // per transaction: 0 known and valid, 1 unknown and not obtainable, 2 obtainable but invalid, 3 repetition
-	if p := catch(func() {
+	if p, node := c19dCatch(func() {
 		maxSize := uint32(2000)
 		if in.Defect == "boundary" && in.Bound == "size" {
 			// three transactions: the size the BACKUP computes (witness of the block still empty) is the limit + delta
@@ -785,6 +827,10 @@ func c19dRunProposal(co *caseOut, raw json.RawMessage) error {
 		impl.ChangeView = nd.find(3, h, 0) != nil
 		impl.Requested = len(nd.reqTx)
 	}); p != "" {
+		if node {
+			co.violation("proposal", c19dPanicNote+p, in, impl)
+			return nil
+		}
 		return fmt.Errorf("harness failure in crafted-proposal case %s: %s", string(raw), p)
 	}
 	var st []string
@@ -874,7 +920,7 @@ func runC19d(args []string) error {
 	mk := func(n int, sets [][]int, first bool) c19dStaleInput {
 		in := c19dStaleInput{N: n, StateRoot: r.bool()}
 		for _, s := range sets {
-			in.Ops = append(in.Ops, c19dHeight{Stale: s, CommitFirst: first, Txs: r.intn(3)})
+			in.Ops = append(in.Ops, c19dHeight{Stale: s, CommitFirst: first, Txs: r.intn(3), ReplayEvent: len(in.Ops)%2 == 1})
 		}
 		return in
 	}
@@ -1135,7 +1181,7 @@ func c19dRunRecovery(co *caseOut, raw json.RawMessage) error {
 	}
 	var impl c19dRecImpl
 	var net *c19dNet
-	if p := catch(func() {
+	if p, node := c19dCatch(func() {
 		var all []int
 		for i := 0; i < N; i++ {
 			all = append(all, i)
@@ -1391,6 +1437,10 @@ func c19dRunRecovery(co *caseOut, raw json.RawMessage) error {
 			}
 		}
 	}); p != "" {
+		if node {
+			co.violation("recovery", c19dPanicNote+p, in, impl)
+			return nil
+		}
 		return fmt.Errorf("harness failure in recovery case %s: %s", string(raw), p)
 	}
 	for _, v := range net.viol {
@@ -1460,7 +1510,7 @@ func c19dRunFull(co *caseOut, raw json.RawMessage) error {
 	cap := 3
 	var counts, reqCounts []int
 	var net *c19dNet
-	if p := catch(func() {
+	if p, node := c19dCatch(func() {
 		tweak := func(c *config.Blockchain) {
 			c.MaxTransactionsPerBlock = 3
 			c.MemPoolSize = 100
@@ -1529,6 +1579,10 @@ func c19dRunFull(co *caseOut, raw json.RawMessage) error {
 			}
 		}
 	}); p != "" {
+		if node {
+			co.violation("full", c19dPanicNote+p, in, nil)
+			return nil
+		}
 		return fmt.Errorf("harness failure in full-block case %s: %s", string(raw), p)
 	}
 	var want []int
@@ -1668,7 +1722,7 @@ func c19dRunWitness(co *caseOut, raw json.RawMessage) error {
 	var items []string // (mode, accepted)
 	distinct := 0
 	var net *c19dNet
-	if p := catch(func() {
+	if p, node := c19dCatch(func() {
 		var all []int
 		for i := 0; i < in.N; i++ {
 			all = append(all, i)
@@ -1762,6 +1816,10 @@ func c19dRunWitness(co *caseOut, raw json.RawMessage) error {
 			panic("set-up: no pair of validators with different witnesses")
 		}
 	}); p != "" {
+		if node {
+			co.violation("witness", c19dPanicNote+p, in, nil)
+			return nil
+		}
 		return fmt.Errorf("harness failure in witness case %s: %s", string(raw), p)
 	}
 	for _, v := range net.viol {
